@@ -152,6 +152,8 @@ class P1Model:
                 terms = self._len_terms(a)
                 if terms is not None:
                     thr = b[1] if op == "LtE" else b[1] - 1
+                    if pp.guard_info and (pp.guard_info["terms"], pp.guard_info["limit"]) != (terms, thr):
+                        return None  # another length test than the guard already seen on this path: an ordinary condition
                     pp.guard_info = {"terms": terms, "limit": thr, "sv": a}
                     return "G", (not pol)
         if g[0] == "call" and g[1] == ".isascii" and g[2] and self.is_line(g[2][0]):
@@ -478,22 +480,79 @@ def skeleton(m: P1Model):
     chunk = fn.params[0]
     parents = {c: p for p in ast.walk(fn.node) for c in ast.iter_child_nodes(p)}
     uses = [n for n in ast.walk(fn.node) if isinstance(n, ast.Name) and n.id == chunk and isinstance(n.ctx, ast.Load)]
+    def _in_test(u):
+        """the use is part of the test of an if / conditional expression (judged per path below, by evaluating the test on representative chunks)"""
+        c = u
+        while c in parents:
+            par = parents[c]
+            if isinstance(par, (ast.If, ast.IfExp, ast.While)) and par.test is c:
+                return True
+            if isinstance(par, ast.stmt):
+                return False
+            c = par
+        return False
     bad = []
+    n_ext = 0
     for u in uses:
         p = parents.get(u)
-        if not (isinstance(p, ast.Call) and isinstance(p.func, ast.Attribute) and p.args == [u] and not p.keywords):
+        if isinstance(p, ast.Call) and isinstance(p.func, ast.Attribute) and p.args == [u] and not p.keywords:
+            n_ext += 1
+        elif not _in_test(u):
             bad.append(u)
-    if bad or len(uses) != 1:
-        for u in bad or uses[1:] or [fn.node]:
-            res.append(Result("bad", "chunk-flow", "chunk-use", "the chunk parameter is used for something other than extending the input buffer (delivery depends on the chunking)",
+    if bad or n_ext != 1:
+        for u in bad or [fn.node]:
+            res.append(Result("und", "chunk-flow", "chunk-use", "the chunk parameter is used for something other than extending the input buffer / deciding whether there is anything to do",
                               getattr(u, "lineno", fn.node.lineno), witness=ast.unparse(parents.get(u)) if parents.get(u) is not None else chunk))
     else:
         res.append(Result("ok", "chunk-flow", "data chunk", "flows only into the buffer's extend()"))
     E = Engine(m.M)
     hunt0 = m.f0(m.hunt)
+    from sa import sveval
+    PC = ("p", chunk)
+
+    def chunk_only(sv):
+        if not isinstance(sv, tuple) or not sv:
+            return True
+        h = sv[0]
+        if h == "p":
+            return sv == PC
+        if h in ("f0", "prop", "g", "l", "new", "iter", "mut", "await", "bound", "havoc", "opaque", "sent", "calldyn"):
+            return h == "g" and isinstance(sv[1], str) and sv[1].isupper()  # a module constant
+        return all(chunk_only(x) for x in sv[1:] if isinstance(x, tuple))
+
+    def consts_env():
+        env = {}
+        try:
+            from sa.consteval import ConstEval
+            ce = ConstEval(m.M)
+            for nm in m.M.mod_consts.get(MOD, {}):
+                if nm.isupper():
+                    try:
+                        env[("g", nm)] = ce.module_value(MOD, nm)
+                    except Exception:  # noqa
+                        pass
+        except Exception:  # noqa
+            pass
+        return env
+    CENV = consts_env()
+    EMPTY, NOLF, WLF = [b""], [b"A", b"/ABC5xyz", b"!12AB", b"1-0:1.8.0(1*kWh)", b"\r"], [b"\n", b"x\r\n", b"!\r\n", b"/ABC5x\r\n!\r\n", b"ab\ncd", b"\n/"]
+
+    def taken_for(conds):
+        """the sample chunks for which every chunk-only condition has the recorded outcome; None when one cannot be evaluated"""
+        out = []
+        for smp in EMPTY + NOLF + WLF:
+            env = dict(CENV)
+            env[PC] = smp
+            try:
+                if all(bool(sveval.ev(g, env)) == pol for g, pol in conds):
+                    out.append(smp)
+            except (sveval.CannotEval, KeyError, TypeError, IndexError):
+                return None
+        return out
     for p in E.run(fn):
         Hm = None
         unknown = []
+        cconds = []
         for g, pol, ln in p.guards:
             if g == hunt0 or (g[0] == "prop" and g[2] == "is_in_hunt_mode"):
                 Hm = pol
@@ -501,7 +560,11 @@ def skeleton(m: P1Model):
                 dummy = P1Path({}, [], P1Post(), p)
                 a = m._atom(g, pol, dummy)
                 if not a:
-                    unknown.append((show_sv(g), ln))
+                    if m.mentions(g, lambda s_: s_ == PC) and chunk_only(g):
+                        cconds.append((g, pol))
+                    else:
+                        unknown.append((show_sv(g), ln))
+        taken = taken_for(cconds) if cconds else None
         seen_loop = False
         extended = False
         for e in p.effects:
@@ -521,13 +584,39 @@ def skeleton(m: P1Model):
                     continue
             if e[0] == "write" and not (e[1] == SELF and e[2] == m.hunt):
                 res.append(Result("bad", "skeleton", "state-change", "read() changes reader state outside the per-line step / guard", e[-1], witness=f"{show_sv(e[1])}.{e[2]}"))
+        cw = "; ".join(f"{'' if pol else 'not '}{show_sv(g)}" for g, pol in cconds)
+        if cconds and taken is None:
+            res.append(Result("und", "skeleton", "chunk-condition", f"read() branches on a condition on the chunk that cannot be evaluated on representative chunks ({cw})", fn.node.lineno))
+            continue
+        if cconds and not taken:
+            continue  # no representative chunk takes this path
+        nonempty = [x for x in (taken or []) if x]
         if not extended:
-            res.append(Result("bad", "chunk-flow", "no-extend", "a path through read() does not buffer the chunk before the loop", fn.node.lineno))
+            if cconds and not nonempty:
+                pass  # only an empty chunk is not buffered
+            elif cconds:
+                res.append(Result("bad", "chunk-flow", "no-extend", "a non-empty chunk is not buffered", fn.node.lineno, witness=f"chunk {nonempty[0]!r} under [{cw}]"))
+            else:
+                res.append(Result("bad", "chunk-flow", "no-extend", "a path through read() does not buffer the chunk before the loop", fn.node.lineno))
         for t, ln in unknown:
-            res.append(Result("bad", "skeleton", "early-exit-condition", "read() branches on a condition other than hunt mode / the length guard before processing lines", ln, witness=t))
+            res.append(Result("und", "skeleton", "early-exit-condition", f"read() branches on a condition other than hunt mode / the length guard / the chunk before processing lines ({t})", ln))
         if p.status == "return" and not any(e[0] == "loop" for e in p.effects):
-            res.append(Result("bad", "skeleton", "early-return", "read() can return before processing buffered lines", fn.node.lineno,
-                              witness="; ".join(f"{'' if pol else 'not '}{show_sv(g)}" for g, pol, _ in p.guards)))
+            wit = "; ".join(f"{'' if pol else 'not '}{show_sv(g)}" for g, pol, _ in p.guards)
+            if not cconds:
+                res.append(Result("bad" if not unknown else "und", "skeleton", "early-return", "read() can return before processing buffered lines", fn.node.lineno, witness=wit))
+                continue
+            lf = [x for x in taken if 10 in x]
+            if nonempty and extended and not any(m._atom(g, pol, P1Path({}, [], P1Post(), p)) for g, pol, _ in p.guards if g[0] == "cmp" and g[1] in ("LtE", "Lt", "Gt", "GtE")):
+                res.append(Result("bad", "growth", "early-return-unguarded", "a non-empty chunk is buffered and read() returns without evaluating the length guard: a stream of such chunks grows the buffer "
+                                  "without bound", fn.node.lineno, witness=f"chunk {nonempty[0]!r} under [{cw}]"))
+            if lf:
+                res.append(Result("bad", "skeleton", "early-return", "read() returns without processing the buffered lines although the chunk completes a line: that line (the end of a readout) is "
+                                  "delivered only if another call follows", fn.node.lineno, witness=f"chunk {lf[0]!r} under [{cw}]"))
+            elif nonempty and any(g[0] == "cmp" and g[1] == "In" and g[2] in (("c", 10), ("c", b"\n")) and g[3] == PC and not pol for g, pol in cconds):
+                pass  # the condition says the chunk has no line end: by induction no complete line is buffered, the loop would pop nothing
+            elif nonempty:
+                res.append(Result("und", "skeleton", "early-return", f"read() returns early for some chunks without a line end ([{cw}]); not proved that no chunk with a line end takes this path", fn.node.lineno))
+            # only the empty chunk: nothing was added, nothing to do
     if not any(r.kind == "bad" and r.tag in ("skeleton", "hunt-trim") for r in res):
         res.append(Result("ok", "skeleton", "prologue", "before the loop read() only buffers the chunk and (while hunting) trims to the next start character"))
     loop = m.loop
